@@ -247,6 +247,23 @@ pub fn run(tier: &str) -> i32 {
             );
         }
     }
+    // the best chain may be shorter than a lighter competing branch: the distance to the
+    // announced headers is measured from the best chain
+    for (theta, n, diffs, lens) in if quick { vec![(3u32, 4usize, vec![1u8, 3], vec![3u8, 4])] } else { vec![(3, 5, vec![1, 3], vec![3, 4]), (2, 4, vec![1, 2, 3], vec![2, 3, 4])] } {
+        let mut alpha = Alphabet::tree(n, &diffs);
+        alpha.hdr_lens = lens.clone();
+        alpha.max_hdr_events = 1;
+        let mut cfg = WorldCfg::regtest(theta);
+        cfg.api_access = true;
+        cfg.disable_if_not_synced = true;
+        let m = ChainModel { cfg, alpha, oracle: C14 };
+        let e = explore(&m, &Limits::new(2, if quick { 300 } else { 6000 }));
+        rep.absorb(
+            &format!("TREE+Hdr mixed difficulty theta={} n={} D={:?} hdr_chains={:?}", theta, n, diffs, lens),
+            e,
+            json!({"threshold": theta, "max_blocks": n, "difficulties": diffs, "announced_chain_lengths": lens, "api_access": true, "disable_api_if_not_fully_synced": true}),
+        );
+    }
     rep.rule = "TREE histories with announced-header events (chains of 1-4 headers on any live block; the first header is that of the block the factory would deliver next, so headers are overtaken by arrivals, left on discarded forks, or reached by the stable height) x the 4 flag combinations; in every state the 7 data endpoints x 3 requested networks and the 3 exempt endpoints are called".into();
     rep.bounds = json!({"tier": tier});
     rep.assume("headers of discarded forks may or may not still count (C20 allows dropping them up to the moment the stable height reaches theirs): such states are 'either'");
